@@ -429,9 +429,10 @@ class Sequential(Operation, ABC):
         if (
             not self._integer_axis_only
             and axis is not None
-            and not hasattr(axis, "__iter__")
+            and (not hasattr(axis, "__iter__") or np.ndim(axis) == 0)
         ):
-            self.axis = (axis,)
+            # (a 0-d integer array has `__iter__` but is a scalar axis, as in NumPy)
+            self.axis = (axis.item() if isinstance(axis, np.ndarray) else axis,)
         else:
             self.axis = axis
 
